@@ -1063,6 +1063,13 @@ func (e *Eng) userResolverMethod(call *ast.CallExpr) bool {
 	if !ok {
 		return false
 	}
+	// explicit_requires mode: ec.Populate<Entity>Requires(ctx, entity, rep) is written by the user in the resolver
+	// files of the generated package (the generator only emits a stub that panics "not implemented")
+	if n := sel.Sel.Name; strings.HasPrefix(n, "Populate") && strings.HasSuffix(n, "Requires") {
+		if _, generated := e.funcIndex.byKey[e.pkg.PkgPath+".NewExecutableSchema"]; generated {
+			return true
+		}
+	}
 	s, ok := e.info.Selections[sel]
 	if !ok {
 		return false
